@@ -3,13 +3,16 @@
    [min data, max data] for any sign of the data, every datum lands in the bin with
    the nearest centre min + k*(max-min)/(n-1).  One initial state per (n, data).  *)
 EXTENDS Integers, Sequences, FiniteSets, CArith, TLC, Json
-CONSTANTS NSet, Data, Emit
-VARIABLES n, d
+CONSTANTS NSet, Data, Emit, Scales, Seconds
+VARIABLES n, d, sc, d2    \* sc: scale option; d2: data the same object processed before (<<>> = fresh object)
 Init == /\ n \in NSet
         /\ d \in (Data \X Data) \cup (Data \X Data \X Data)
         /\ \E i, j \in 1..Len(d) : d[i] # d[j]          \* a degenerate range has no bins
-Next == UNCHANGED <<n, d>>
-Spec == Init /\ [][Next]_<<n, d>>
+        /\ sc \in Scales /\ d2 \in Seconds
+        \* bond / angle scaling divides by r^2 / sin(r): only for strictly positive data away from the singular points
+        /\ (sc # "no" => \A i \in 1..Len(d) : d[i] > 0)
+Next == UNCHANGED <<n, d, sc, d2>>
+Spec == Init /\ [][Next]_<<n, d, sc, d2>>
 SeqMin(s) == CHOOSE x \in {s[i] : i \in 1..Len(s)} : \A i \in 1..Len(s) : x <= s[i]
 SeqMax(s) == CHOOSE x \in {s[i] : i \in 1..Len(s)} : \A i \in 1..Len(s) : x >= s[i]
 Mn == SeqMin(d)
@@ -20,6 +23,9 @@ Tie(v) == (2 * (v - Mn) * (n - 1) + Dd) % (2 * Dd) = 0
 Count(k) == Cardinality({i \in 1..Len(d) : Bin(d[i]) = k})
 AllInside == \A i \in 1..Len(d) : Bin(d[i]) \in 0..(n - 1)
 EndsHit == Bin(Mn) = 0 /\ Bin(Mx) = n - 1
-Vector == Emit => PrintT(ToJson([n |-> n, d |-> d, mn |-> Mn, mx |-> Mx,
+\* relations stated for the real code's outputs on this instance (both sides are outputs of the real code):
+\*  normalised: sum(pdf)*interval = 1 and pdf_norm[i]*pdf_raw[j] = pdf_norm[j]*pdf_raw[i]  (ratios unchanged)
+\*  reuse:      an object that processed d2 before gives for d exactly what a fresh object gives
+Vector == Emit => PrintT(ToJson([n |-> n, d |-> d, sc |-> sc, d2 |-> d2, mn |-> Mn, mx |-> Mx,
              bin |-> [i \in 1..Len(d) |-> Bin(d[i])], tie |-> [i \in 1..Len(d) |-> Tie(d[i])]]))
 =============================================================================
